@@ -2,6 +2,8 @@
   Driver/Router.lean — `NEW router` sessions (C01 C02 C07 C08 C09 C10 C12).
 
     ADD <hid> <methods csv|*> <text hex> <ast|!>     → ok | err
+        (methods `verb:GET`: through the verb method `f.Get(text, h)`; `combo:GET,POST`: through `Combo(text).Get(h).Post(h)`)
+    AUTOHEAD <0|1>                                   → ok      (`Flame.AutoHead(v)`: from now on Get also registers HEAD)
     HDR <hid> (<raw> <canon> <expr>)*                → ok | err
     NAME <hid> <name hex>                            → ok | err
     REQ  <method hex> <path hex> (<canon>=<value>)*  → h <hid> <long 0|1> <form binds k=v,…> route=<hex> u0=<hex> u1=<hex> | nf
@@ -52,8 +54,19 @@ def parseAst (s : String) : Option Route :=
 def methodsOf (s0 : String) : List String :=
   -- "combo:GET,POST": the harness registers through Combo(path).Get(h).Post(h) and names through ComboRoute.Name —
   -- for the router the same sequence of single-method registrations, and the name lands on the same route
-  let s := if s0.startsWith "combo:" then (s0.drop 6).toString else s0
+  let s := if s0.startsWith "combo:" then (s0.drop 6).toString
+           else if s0.startsWith "verb:" then (s0.drop 5).toString else s0
   if s == "*" then Gen.httpMethods else (s.splitOn ",").map String.toUpper
+
+/-- the handle id under which the driver files the HEAD twin that `Get` registers while AutoHead is on: a registration
+    of its own (`r.Head(routePath, handlers...)`, its Route is dropped), so `Headers()` / `Name()` on the Route that
+    `Get` returns never reach it; it runs the same handlers, so it is REPORTED under the id of the GET registration -/
+def twinBase : Nat := 1000000
+
+/-- `Combo(text).Get(h)` while AutoHead is on: HEAD right after GET, inside the same sequence of verb calls -/
+def withTwins : List String → List String
+  | [] => []
+  | m :: ms => if m == "GET" then m :: "HEAD" :: withTwins ms else m :: withTwins ms
 
 def parseHdrPairs : List String → Option (List HdrPair)
   | [] => some []
@@ -126,6 +139,13 @@ def showOutcome (R : Router) (o : Outcome) (viaRouter : Bool := true) : String :
 structure St where
   R : Router := Router.new
   bad : Bool := false
+  /-- `router.autoHead` -/
+  autoHead : Bool := false
+
+/-- the outcome as the harness reports it: the HEAD twin of a `Get` runs the handler of its GET registration -/
+def untwin : Outcome → Outcome
+  | .handler l ps => .handler { l with hid := l.hid % twinBase } ps
+  | o => o
 
 def step (E : Engine) (st : St) (l : List String) : St × String :=
   match l with
@@ -138,9 +158,22 @@ def step (E : Engine) (st : St) (l : List String) : St × String :=
     | none => (st, "err")
     | some r =>
       let methods := methodsOf ms
+      let methods := if st.autoHead && ms.startsWith "combo:" then withTwins methods else methods
       -- one method after the other, as `Routes` / `Any` do: an unknown method (no tree of that name) stops the
       -- registration with a panic, the methods before it stay registered (`Router.addMethods`)
       if methods.isEmpty then (st, "err")
+      else if st.autoHead && ms == "verb:GET" then
+        -- `router.Get` with AutoHead on: `r.Route(GET, …)`, then `r.Head(…)` with the same handlers — two registrations,
+        -- the Route of the first is returned.  A panic of the second leaves the GET route registered and the caller
+        -- without any Route (no handle to constrain or name)
+        let (R1, ok1) := st.R.addMethods E (natOf hid) r ["GET"] []
+        if !ok1 then ({ st with R := R1 }, "err")
+        else
+          let (R2, ok2) := R1.addMethods E (natOf hid + twinBase) r ["HEAD"] []
+          if !ok2 then ({ st with R := { R2 with handles := assocDel R2.handles (natOf hid) } }, "err")
+          else
+            let R3 := (R2.setName (natOf hid) (Bytes.ofString s!"r{natOf hid}")).getD R2
+            ({ st with R := R3 }, "ok")
       else
         let (R', ok) := st.R.addMethods E (natOf hid) r methods []
         -- the harness names every route it managed to add `r<hid>` (for the round trip)
@@ -148,6 +181,7 @@ def step (E : Engine) (st : St) (l : List String) : St × String :=
           let R'' := (R'.setName (natOf hid) (Bytes.ofString s!"r{natOf hid}")).getD R'
           ({ st with R := R'' }, "ok")
         else ({ st with R := R' }, "err")
+  | ["AUTOHEAD", v] => ({ st with autoHead := v == "1" }, "ok")
   | "HDR" :: hid :: rest =>
     match parseHdrPairs rest with
     | none => (st, "err")
@@ -172,19 +206,19 @@ def step (E : Engine) (st : St) (l : List String) : St × String :=
       | some t => match splitSlash (trimLeftSlash req.path) with
         | [] => 0
         | s :: rest => (derivs E (st.R.hok E req.hdrs) t.subs t.leaves s rest).length
-    (st, showOutcome st.R (st.R.serve E req) ++ s!" alts={alts}")
+    (st, showOutcome st.R (untwin (st.R.serve E req)) ++ s!" alts={alts}")
   | "NREQ" :: m :: p :: _ :: _ :: hs =>
     -- another request is served on the same instance while this one is in flight: serving does not
     -- change the router, so the outcome is that of the request alone
     let req : Request := ⟨(hexOf m).toStringLossy, hexOf p, parseReqHdrs hs⟩
-    (st, showOutcome st.R (st.R.serve E req))
+    (st, showOutcome st.R (untwin (st.R.serve E req)))
   | "TREQ" :: m :: p :: hs =>
     let req : Request := ⟨(hexOf m).toStringLossy, hexOf p, parseReqHdrs hs⟩
-    (st, showOutcome st.R (st.R.serveTreeOnly E req) false)
+    (st, showOutcome st.R (untwin (st.R.serveTreeOnly E req)) false)
   | "IREQ" :: m :: p :: hs =>
     let req : Request := ⟨(hexOf m).toStringLossy, hexOf p, parseReqHdrs hs⟩
     match st.R.serveTreeOnlyIdx E req with
-    | .ok o => (st, showOutcome st.R o false)
+    | .ok o => (st, showOutcome st.R (untwin o) false)
     | .error _ => (st, "panic")
   | "URL" :: name :: pairs =>
     match st.R.urlPath (hexOf name) (pairs.map hexOf) with
